@@ -45,9 +45,17 @@ def plan(tier, seed):
         else:
             pairs = list(itertools.product(ops, repeat=2))
         # every addition of node material followed by an edit of exactly the node just added
-        for f in structural:
+        for j, f in enumerate(structural):
+            if tier == 'quick' and (j + di + seed) % 2:
+                continue
             for snd in [('delete-new',), ('remove-new',), ('replace-new', 's'), ('replace-new', 'a')]:
                 pairs.append((f, snd))
+        # moving a node of the document (delete + append of the same node), then editing it at its new place
+        for k in range(4 if tier != 'quick' else 3):
+            for c in range(3 if tier != 'quick' else 2):
+                units.append(dict(hfile='history.py', fname='c15_history', args=(di, (('move', k, c),))))
+                for snd in [('delete-new',), ('replace-new', 's'), ('rename', k, 'sym')]:
+                    pairs.append((('move', k, c), snd))
         for p in pairs:
             units.append(dict(hfile='history.py', fname='c15_history', args=(di, p)))
         if tier != 'quick':
